@@ -577,7 +577,31 @@ impl<'a> TransactionRebase<'a> {
                                 .push(committed_fri.clone());
                             Ok(())
                         } else {
-                            Ok(())
+                            // ... unless one of the rewrite groups mixes fragments our
+                            // index covers with fragments it does not cover: the fragment
+                            // bitmap of our index could then no longer be remapped.
+                            let splits_indexed_data = new_indices
+                                .iter()
+                                .filter_map(|index| index.fragment_bitmap.as_ref())
+                                .any(|bitmap| {
+                                    groups.iter().any(|group| {
+                                        let covered = group
+                                            .old_fragments
+                                            .iter()
+                                            .filter(|fragment| bitmap.contains(fragment.id as u32))
+                                            .count();
+                                        covered != 0 && covered != group.old_fragments.len()
+                                    })
+                                });
+                            if splits_indexed_data {
+                                Err(self.retryable_conflict_err(
+                                    other_transaction,
+                                    other_version,
+                                    location!(),
+                                ))
+                            } else {
+                                Ok(())
+                            }
                         }
                     } else {
                         let mut affected_ids = HashSet::new();
